@@ -507,7 +507,7 @@ fn gen_c05(ch: &mut Chunker, r: &mut Rng, _thorough: bool, scale: usize) {
     for i in 0..500 * scale {
         let is_fill = i % 2 == 0;
         let tc = TextCfg { max_words: 5, max_paras: if is_fill { 2 } else { 1 }, ansi: if i % 3 == 0 { Ansi::Any } else { Ansi::WellFormed }, unicode: true, ctrl: false, crlf: false };
-        let text = if i % 5 == 0 { gen_alpha(r, &['a', ' ', '\u{4f60}', '\u{e9}', '-', '\u{301}'], 10) } else if is_fill { gen_text(r, &tc) } else { gen_para(r, &tc) };
+        let text = if i % 5 == 0 { gen_alpha(r, &['a', ' ', '\u{4f60}', '\u{e9}', '-', '\u{301}', '\u{7f}'], 10) } else if is_fill { gen_text(r, &tc) } else { gen_para(r, &tc) };
         let dw = display_width_oracle(&text);
         let bytes = text.len();
         let mut widths: Vec<usize> = (dw.saturating_sub(1)..=bytes + 2).collect();
